@@ -68,6 +68,7 @@ pub fn generate(tier: Tier, rng: &mut Rng, sink: &mut dyn FnMut(Case)) {
     gen_rank(&mut g, tier);
     gen_layered(&mut g, tier);
     gen_wide(&mut g);
+    gen_bigconf(&mut g, tier);
     gen_malformed(&mut g, tier);
     gen_pair(&mut g, tier);
 }
@@ -607,6 +608,96 @@ fn gen_wide(g: &mut Gen) {
             };
             g.emit_b(name, ops, Vec::new());
         }
+    }
+}
+
+// ---------------------------------------------------------------------------------------------
+// bigconf: more than 20 functions, equal-rank conflicting functions, ranks not monotone in
+// insertion order, several data types declared in arbitrary order
+// ---------------------------------------------------------------------------------------------
+
+/// `F` op whose read / write lists are in random order (declaration order must not matter).
+fn f_op_shuffled(rng: &mut Rng, fid: u64, accs: &[Acc]) -> Op {
+    match f_op(fid, accs) {
+        Op::F { fid, mut rd, mut wr } => {
+            rng.shuffle(&mut rd);
+            rng.shuffle(&mut wr);
+            Op::F { fid, rd, wr }
+        }
+        other => other,
+    }
+}
+
+fn gen_bigconf(g: &mut Gen, tier: Tier) {
+    let count = match tier {
+        Tier::Quick => 120,
+        Tier::Thorough => 1500,
+    };
+    // deterministic rank patterns with every function writing type 0
+    for n in [21usize, 24, 30, 36, 48] {
+        for pattern in 0..3 {
+            let mut ops: Vec<Op> = (0..n).map(|i| f_op(fixed_fid(i), &[Acc::W])).collect();
+            match pattern {
+                0 => {
+                    // ranks 0,1,0,0,1,0,...
+                    let mut i = 0;
+                    while i + 1 < n {
+                        ops.push(Op::L(i, i + 1));
+                        i += 3;
+                    }
+                }
+                1 => {
+                    // roots inserted after their successors: ranks 2,1,0,2,1,0,...
+                    let mut i = 0;
+                    while i + 2 < n {
+                        ops.push(Op::L(i + 2, i + 1));
+                        ops.push(Op::L(i + 1, i));
+                        i += 3;
+                    }
+                }
+                _ => {
+                    // ranks 1,0,1,0,...
+                    let mut i = 0;
+                    while i + 1 < n {
+                        ops.push(Op::C(i + 1, i));
+                        i += 2;
+                    }
+                }
+            }
+            g.emit_b("bigconf-pattern", ops, Vec::new());
+        }
+    }
+    for _ in 0..count {
+        let n = 21 + g.rng.below(28);
+        let types = 1 + g.rng.below(3);
+        // random levels; edges go from a lower to a higher level
+        let levels: Vec<usize> = (0..n).map(|_| g.rng.below(4)).collect();
+        let mut ops: Vec<Op> = Vec::new();
+        for i in 0..n {
+            let accs: Vec<Acc> = (0..types)
+                .map(|_| {
+                    let r = g.rng.below(10);
+                    if r < 3 {
+                        Acc::W
+                    } else if r < 5 {
+                        Acc::R
+                    } else {
+                        Acc::None
+                    }
+                })
+                .collect();
+            let op = f_op_shuffled(g.rng, fixed_fid(i), &accs);
+            ops.push(op);
+        }
+        let n_edges = n / 2 + g.rng.below(n);
+        for _ in 0..n_edges {
+            let a = g.rng.below(n);
+            let b = g.rng.below(n);
+            if levels[a] < levels[b] {
+                ops.push(if g.rng.chance(1, 3) { Op::C(a, b) } else { Op::L(a, b) });
+            }
+        }
+        g.emit_b("bigconf-rand", ops, Vec::new());
     }
 }
 
